@@ -1,19 +1,16 @@
-"""dev runner: python3-vt tools/dev.py C02 [filter] -- prints every obligation verdict"""
+"""dev runner: python3-vt tools/dev.py C02 [filter] [-v] -- per-task verdicts (every task in its own process, as in the check)"""
 import sys, time, importlib
 sys.path.insert(0, "/verif")
 from pyvc import verify, solve
 mod = importlib.import_module("contracts." + sys.argv[1])
-flt = sys.argv[2] if len(sys.argv) > 2 else ""
+flt = sys.argv[2] if len(sys.argv) > 2 and not sys.argv[2].startswith("-") else ""
 t0 = time.time()
-for task in mod.TASKS:
-    label = getattr(task, "label", getattr(task, "name", "?"))
-    if flt and flt not in label:
-        continue
-    r = verify.run_task(task)
-    if r.undecided:
-        print("UNDECIDED", label, r.undecided); continue
-    vs = solve.discharge(r.obls, timeout_s=20)
-    cs = solve.discharge(r.covers, timeout_s=5)
+tasks = [t for t in mod.TASKS if not flt or flt in getattr(t, "label", getattr(t, "name", "?"))]
+for d in verify.run_isolated(tasks, timeout_s=20, cover_timeout=5):
+    label = d["label"]
+    if d["undecided"]:
+        print("UNDECIDED", label, d["undecided"]); continue
+    vs, cs = d["verdicts"], d["covers"]
     bad = [v for v in vs if v.status != "discharged"]
     print(f"{label}: {len(vs)} obligations, {len(vs)-len(bad)} discharged, covers sat={sum(c.status=='satisfiable' for c in cs)}/{len(cs)}  t={time.time()-t0:.1f}s")
     for v in bad:
